@@ -1,61 +1,84 @@
-(* Guards.v — executable predicates naming the program shapes on which the implementation
-   raises (crash sites, DESIGN §8 D11) or silently accepts a catalogued error (D8–D10,
-   D12).  They delimit the `_partial` theorems and are the shape predicates of the known
-   findings (known_findings.json): the harness evaluates them on every generated case
-   inside coqc and attributes a failure to a finding only when its predicate holds.
-   Definitions only. *)
+(* Guards.v — executable predicates that delimit the `_partial` theorems and serve as the
+   shape predicates of the known findings (known_findings.json): the harness evaluates them
+   on every generated case inside coqc and attributes a failure to a finding only when its
+   predicate holds.  Definitions only.
+
+   After the repairs D8–D12a, D21 (see known_findings.json, status fixed) what is left:
+   - from_grammar : a condition on the *AST*, not on the program: attribute paths have the
+     shape the grammar gives them and struct literals are JSON objects.  The parser guarantees
+     it; the theorems over all ASTs need it as a hypothesis.
+   - sh_bad_guard (D12b)      : some guard is not of type boolean — still accepted.
+   - sh_string_eq (D24)       : a string attribute under == != And Or !, or a parenthesised
+                                string operand of < <= > >= — rejected although well-formed.
+   - sh_array_element (D25)   : an array element inside a guard or a loop limit, or an element
+                                of an array of primitives as parameter — rejected although
+                                well-formed. *)
 From PFDL Require Import Base Syntax.
 From PFDL.Check Require Import CheckModel Typing.
 
-Section Guards.
+(* ------------------------------------------------------------------------------ *)
+(* the shape the grammar gives every AST                                           *)
+(* ------------------------------------------------------------------------------ *)
+(* attribute_access: ID (DOT ID array?)+ — it starts with ".field" and an index only follows
+   a field *)
+Fixpoint no_double_index (es : list pelem) : bool :=
+  match es with
+  | e1 :: ((e2 :: _) as rest) => negb (is_index e1 && is_index e2) && no_double_index rest
+  | _ => true
+  end.
+
+Definition grammar_path (es : list pelem) : bool :=
+  match es with
+  | PF _ :: _ => no_double_index es
+  | _ => false
+  end.
+
+(* struct_initialization: NAME json_object *)
+Definition param_from_grammar (x : param) : bool :=
+  match x with
+  | PVar _ => true
+  | PPath _ es => grammar_path es
+  | PLit _ (JObj _) => true
+  | PLit _ _ => false
+  end.
+
+(* every call parameter of the program (guards and limits are only read by total functions) *)
+Fixpoint stmt_params_all (fp : param -> bool) (s : stmt) {struct s} : bool :=
+  match s with
+  | SService _ ins _ => forallb fp ins
+  | SCall c => forallb fp (c_ins c)
+  | SParallel cs => forallb (fun c => forallb fp (c_ins c)) cs
+  | SWhile _ body => forallb (stmt_params_all fp) body
+  | SCount _ _ _ body => forallb (stmt_params_all fp) body
+  | SCond _ p f => forallb (stmt_params_all fp) p && forallb (stmt_params_all fp) f
+  end.
+
+Definition from_grammar (p : program) : bool :=
+  forallb (fun t => forallb (stmt_params_all param_from_grammar) (t_body t)) (p_tasks p).
+
+(* ------------------------------------------------------------------------------ *)
+(* D25: array elements where the validator cannot type them                        *)
+(* ------------------------------------------------------------------------------ *)
+Definition path_index_free (es : list pelem) : bool := forallb (fun e => negb (is_index e)) es.
+
+Fixpoint expr_index_free (e : expr) : bool :=
+  match e with
+  | EPath _ es => path_index_free es
+  | ENot e1 | EParen e1 => expr_index_free e1
+  | EBin _ l r => expr_index_free l && expr_index_free r
+  | _ => true
+  end.
+
+Definition limit_index_free (l : limit) : bool :=
+  match l with
+  | LimInt _ => true
+  | LimPath _ es => path_index_free es
+  end.
+
+Section Access.
   Variable E : env.
 
-  (* ---- D11a: get_type_of_variable_list on a path that is not a chain of plain struct
-     attributes of a declared struct variable (undeclared variable, unknown attribute,
-     array element, attribute of a primitive).  [plain_chain sd last es]: the lookups of
-     gtvl_loop all succeed. *)
-  Fixpoint plain_chain (cur : sdef) (last : pelem) (es : list pelem) : bool :=
-    match es with
-    | [] => match attr_of cur last with Some _ => true | None => false end
-    | e :: rest =>
-      match attr_of cur last with
-      | Some (TPlain p) =>
-        match struct_of_prim E p with
-        | Some sd => plain_chain sd e rest
-        | None => false
-        end
-      | _ => false
-      end
-    end.
-
-  Definition plain_path (T : tdef) (v : name) (es : list pelem) : bool :=
-    match assoc v (td_vars T) with
-    | Some (TPlain p) =>
-      match struct_of_prim E p with
-      | Some sd =>
-        match es with
-        | [] => has_key v (sd_attrs sd)
-        | e :: rest => plain_chain sd e rest
-        end
-      | None => false
-      end
-    | _ => false
-    end.
-
-  (* ---- D11a + D11b: operands of a comparison / arithmetic operator as
-     expression_is_number walks them: no '!' below, every path a plain chain *)
-  Fixpoint operand_safe (T : tdef) (e : expr) : bool :=
-    match e with
-    | ENum _ | EBool _ | EStr _ => true
-    | EPath v es => plain_path T v es
-    | EParen e1 => operand_safe T e1
-    | EBin _ l r => operand_safe T l && operand_safe T r
-    | ENot _ => false
-    end.
-
-  (* ---- D11c: check_attribute_access on a path that puts an index after a non-array
-     attribute, a field after an array attribute, an index after an array of primitives
-     (or of an undefined struct), or starts at an array-typed variable *)
+  (* false exactly when an index is applied to an array whose elements are not structs *)
   Fixpoint access_safe_loop (pred : sdef) (es : list pelem) : bool :=
     match es with
     | [] => true
@@ -65,273 +88,94 @@ Section Guards.
       | Some ty =>
         match rest with
         | [] => true
-        | PF _ :: _ =>
+        | e2 :: _ =>
           match ty with
-          | TArray _ _ => false
-          | TPlain p =>
-            match struct_of_prim E p with
-            | None => true
-            | Some sd => access_safe_loop sd rest
-            end
-          end
-        | _ :: _ =>
-          match ty with
-          | TPlain _ => false
           | TArray p _ =>
-            match struct_of_prim E p with
-            | None => false
-            | Some sd => access_safe_loop sd rest
-            end
+            if is_index e2 then
+              match struct_of_prim E p with
+              | None => false
+              | Some sd => access_safe_loop sd rest
+              end
+            else true
+          | TPlain p =>
+            if is_index e2 then true
+            else match struct_of_prim E p with
+                 | None => true
+                 | Some sd => access_safe_loop sd rest
+                 end
           end
         end
       end
     | _ :: rest => access_safe_loop pred rest
     end.
 
-  (* the shape the grammar gives every attribute_access: it starts with ".field" and an
-     index only follows a field (attribute_access: ID (DOT ID array?)+) *)
-  Fixpoint no_double_index (es : list pelem) : bool :=
-    match es with
-    | e1 :: ((e2 :: _) as rest) => negb (is_index e1 && is_index e2) && no_double_index rest
-    | _ => true
-    end.
-
-  Definition grammar_path (es : list pelem) : bool :=
-    match es with
-    | PF _ :: _ => no_double_index es
-    | _ => false
-    end.
-
   Definition access_safe (T : tdef) (v : name) (es : list pelem) : bool :=
-    grammar_path es &&
     match assoc v (td_vars T) with
-    | None => true
-    | Some (TArray _ _) => false
     | Some (TPlain p) =>
       match struct_of_prim E p with
       | None => true
       | Some sd => access_safe_loop sd es
       end
+    | _ => true
     end.
 
-  (* a path used as a whole condition (check_single_expression): the access is safe and,
-     because get_type_of_variable_list knows no indices, it has none *)
-  Definition cond_path_safe (T : tdef) (v : name) (es : list pelem) : bool :=
-    access_safe T v es && forallb (fun e => negb (is_index e)) es.
-
-  (* the two crash families of check_expression, separately *)
-  Fixpoint expr_operands_safe (T : tdef) (e : expr) : bool :=
-    match e with
-    | ENum _ | EBool _ | EStr _ | EPath _ _ => true
-    | ENot e1 => expr_operands_safe T e1
-    | EParen e1 => expr_operands_safe T e1
-    | EBin o l r =>
-      if is_cmp o || is_arith o then operand_safe T l && operand_safe T r
-      else expr_operands_safe T l && expr_operands_safe T r
-    end.
-
-  Fixpoint expr_paths_safe (T : tdef) (e : expr) : bool :=
-    match e with
-    | ENum _ | EBool _ | EStr _ => true
-    | EPath v es => cond_path_safe T v es
-    | ENot e1 => expr_paths_safe T e1
-    | EParen e1 => expr_paths_safe T e1
-    | EBin o l r =>
-      if is_cmp o || is_arith o then true
-      else expr_paths_safe T l && expr_paths_safe T r
-    end.
-
-  Definition expr_safe (T : tdef) (e : expr) : bool :=
-    expr_operands_safe T e && expr_paths_safe T e.
-
-  (* ---- D11d: a struct literal whose nested object (attribute of struct type, not an
-     array element) has a key that its struct definition lacks *)
-  Fixpoint value_safe (def : sdef) (id : name) (v : pv) {struct v} : bool :=
-    match assoc id (sd_attrs def) with
-    | None => false
-    | Some (TPlain p) =>
-      match struct_of_prim E p with
-      | Some sd' =>
-        match v with
-        | PVStruct fs =>
-          (fix go (l : list (name * pv)) : bool :=
-             match l with
-             | [] => true
-             | (id', v') :: r => value_safe sd' id' v' && go r
-             end) fs
-        | _ => true
-        end
-      | None => true
-      end
-    | Some (TArray p _) =>
-      match v with
-      | PVArray vs =>
-        (fix elems (l : list pv) : bool :=
-           match l with
-           | [] => true
-           | value :: r =>
-             match value with
-             | PVStruct fs =>
-               match struct_of_prim E p with
-               | None => true
-               | Some sd' =>
-                 (fix go (l2 : list (name * pv)) : bool :=
-                    match l2 with
-                    | [] => true
-                    | (id', v') :: r2 =>
-                      (if has_key id' (sd_attrs sd') then value_safe sd' id' v' else true) && go r2
-                    end) fs
-               end
-             | _ => true
-             end && elems r
-           end) vs
-      | _ => true
-      end
-    end.
-
-  Definition literal_safe (s : name) (j : json) : bool :=
-    match parse_json j with
-    | PVStruct fs =>
-      match find_struct E s with
-      | None => true
-      | Some sd =>
-        forallb (fun kv => if has_key (fst kv) (sd_attrs sd) then value_safe sd (fst kv) (snd kv) else true) fs
-      end
-    | _ => false
-    end.
-
-  Definition param_access_safe (T : tdef) (p : param) : bool :=
-    match p with
+  Definition param_access_safe (T : tdef) (x : param) : bool :=
+    match x with
     | PPath v es => access_safe T v es
     | _ => true
     end.
+End Access.
 
-  Definition param_literal_safe (p : param) : bool :=
-    match p with
-    | PLit s j => literal_safe s j
-    | _ => true
+(* statements as check_statement walks them: [fe] holds of every guard, [fl] of every loop
+   limit, [fp] of every call parameter *)
+Section Walk.
+  Variable fe : expr -> bool.
+  Variable fl : limit -> bool.
+  Variable fp : param -> bool.
+  Definition call_all (c : call) : bool := forallb fp (c_ins c).
+  Fixpoint stmt_all (s : stmt) {struct s} : bool :=
+    match s with
+    | SService _ ins _ => forallb fp ins
+    | SCall c => call_all c
+    | SParallel cs => forallb call_all cs
+    | SWhile e body => forallb stmt_all body && fe e
+    | SCount true _ lim body => fl lim && match body with [SCall c] => call_all c | _ => true end
+    | SCount false _ lim body => fl lim && forallb stmt_all body
+    | SCond e p f => forallb stmt_all p && forallb stmt_all f && fe e
     end.
+End Walk.
 
-  (* statements as check_statement walks them (nothing below a parallel loop is looked
-     at): [fe] holds of every guard, [fp] of every call parameter *)
-  Section Walk.
-    Variable fe : expr -> bool.
-    Variable fp : param -> bool.
-    Definition call_all (c : call) : bool := forallb fp (c_ins c).
-    Fixpoint stmt_all (s : stmt) {struct s} : bool :=
-      match s with
-      | SService _ ins _ => forallb fp ins
-      | SCall c => call_all c
-      | SParallel cs => forallb call_all cs
-      | SWhile e body => forallb stmt_all body && fe e
-      | SCount true _ _ _ => true
-      | SCount false _ _ body => forallb stmt_all body
-      | SCond e p f => forallb stmt_all p && forallb stmt_all f && fe e
-      end.
-  End Walk.
-
-  Definition task_all (fe : tdef -> expr -> bool) (fp : tdef -> param -> bool) (T : tdef) : bool :=
-    forallb (stmt_all (fe T) (fp T)) (td_body T).
-End Guards.
-
-Definition prog_all (fe : env -> tdef -> expr -> bool) (fp : env -> tdef -> param -> bool)
+Definition prog_all (fe : expr -> bool) (fl : limit -> bool) (fp : env -> tdef -> param -> bool)
            (p : program) : bool :=
   let E := visit_env p in
-  forallb (fun kv => task_all (fe E) (fp E) (snd kv)) (e_tasks E).
+  forallb (fun kv => forallb (stmt_all fe fl (fp E (snd kv))) (td_body (snd kv))) (e_tasks E).
 
-(* D11a/b: every operand of a comparison or arithmetic operator is free of '!' and every
-   path below it is a chain of plain struct attributes of a declared variable *)
-Definition g_operands : program -> bool :=
-  prog_all (fun E T e => expr_operands_safe E T e) (fun _ _ _ => true).
-(* D11c: no attribute path trips check_attribute_access / get_type_of_variable_list *)
-Definition g_access : program -> bool :=
-  prog_all (fun E T e => expr_paths_safe E T e) (fun E T p => param_access_safe E T p).
-(* D11d: no nested literal object has a key its definition lacks *)
-Definition g_literal : program -> bool :=
-  prog_all (fun _ _ _ => true) (fun E _ p => param_literal_safe E p).
-
-(* the guard of C16_no_exception_partial: none of the crash shapes occurs *)
-Definition crash_free (p : program) : bool := g_operands p && g_access p && g_literal p.
+Definition g_array_elements : program -> bool :=
+  prog_all expr_index_free limit_index_free (fun E T x => param_access_safe E T x).
+Definition sh_array_element (p : program) : bool := negb (g_array_elements p).
 
 (* ------------------------------------------------------------------------------ *)
-(* shapes of silently accepted errors                                              *)
+(* D12b, D24: guards                                                               *)
 (* ------------------------------------------------------------------------------ *)
-
-Fixpoint stmt_has_parloop (s : stmt) : bool :=
-  match s with
-  | SCount true _ _ _ => true
-  | SCount false _ _ b => existsb stmt_has_parloop b
-  | SWhile _ b => existsb stmt_has_parloop b
-  | SCond _ p f => existsb stmt_has_parloop p || existsb stmt_has_parloop f
-  | _ => false
-  end.
-
-(* D9: some parallel loop exists (its body call is never checked) *)
-Definition has_parloop (p : program) : bool :=
-  existsb (fun t => existsb stmt_has_parloop (t_body t)) (p_tasks p).
-
-(* D10: some counting loop has a limit that is not an integer or a number path *)
-Section Limits.
-  Variable P : program.
-  Fixpoint stmt_bad_limit (vars : list (name * vtype)) (loopvars : list name) (s : stmt) : bool :=
-    match s with
-    | SCount par i lim b =>
-      negb (limit_ok P vars loopvars lim)
-      || (if par then false else existsb (stmt_bad_limit vars (i :: loopvars)) b)
-    | SWhile _ b => existsb (stmt_bad_limit vars loopvars) b
-    | SCond _ p f => existsb (stmt_bad_limit vars loopvars) p || existsb (stmt_bad_limit vars loopvars) f
-    | _ => false
-    end.
-End Limits.
-
-Definition has_bad_limit (p : program) : bool :=
-  existsb (fun t => existsb (stmt_bad_limit p (vars_of_task t) []) (t_body t)) (p_tasks p).
-
-(* D8: the call graph has a cycle (some chain of calls is as long as the task list) *)
-Definition has_recursion (p : program) : bool := negb (acyclic p).
-
-(* ---- shapes of the remaining deviations (evaluated by the harness for attribution) ---- *)
 Section Shapes.
   Variable P : program.
 
-  (* D9: the call inside some parallel loop breaks rule R5/R4 *)
-  Fixpoint stmt_parloop_call_bad (vars : list (name * vtype)) (loopvars : list name) (s : stmt) : bool :=
-    match s with
-    | SCount true i _ [SCall c] => negb (call_ok P vars (i :: loopvars) c)
-    | SCount true _ _ _ => false
-    | SCount false i _ b => existsb (stmt_parloop_call_bad vars (i :: loopvars)) b
-    | SWhile _ b => existsb (stmt_parloop_call_bad vars loopvars) b
-    | SCond _ p f => existsb (stmt_parloop_call_bad vars loopvars) p
-                     || existsb (stmt_parloop_call_bad vars loopvars) f
-    | _ => false
-    end.
-
-  (* D12: some struct literal (outside parallel loops) names a defined struct but does not
-     match it (rule R4) *)
-  Definition param_bad_literal (p : param) : bool :=
-    match p with
-    | PLit s j => mem s (struct_names P) && negb (json_ok P (TPlain (TStructName s)) j)
-    | _ => false
-    end.
-
-  (* D12: some guard is not of type boolean (rule R6) *)
+  (* D12b: some guard is not of type boolean (rule R6) *)
   Definition guard_bad (vars : list (name * vtype)) (loopvars : list name) (e : expr) : bool :=
     negb (guard_ok P vars loopvars e).
 
-  Fixpoint stmt_exists (fe : list name -> expr -> bool) (fp : param -> bool) (loopvars : list name)
+  Fixpoint stmt_exists (fe : list name -> expr -> bool) (loopvars : list name)
            (s : stmt) {struct s} : bool :=
     match s with
-    | SService _ ins _ => existsb fp ins
-    | SCall c => existsb fp (c_ins c)
-    | SParallel cs => existsb (fun c => existsb fp (c_ins c)) cs
-    | SWhile e b => fe loopvars e || existsb (stmt_exists fe fp loopvars) b
+    | SWhile e b => fe loopvars e || existsb (stmt_exists fe loopvars) b
     | SCount true _ _ _ => false
-    | SCount false i _ b => existsb (stmt_exists fe fp (i :: loopvars)) b
-    | SCond e p f => fe loopvars e || existsb (stmt_exists fe fp loopvars) p
-                     || existsb (stmt_exists fe fp loopvars) f
+    | SCount false i _ b => existsb (stmt_exists fe (i :: loopvars)) b
+    | SCond e p f => fe loopvars e || existsb (stmt_exists fe loopvars) p
+                     || existsb (stmt_exists fe loopvars) f
+    | _ => false
     end.
 
-  (* C11: a path of type string in a position where check_single_expression looks at it
+  (* D24: a path of type string in a position where check_single_expression looks at it
      (operand of == != And Or !, or the whole guard), or a parenthesised string operand of
      < <= > >= (expression_is_string does not look through parentheses) *)
   Definition paren_string (vars : list (name * vtype)) (loopvars : list name) (e : expr) : bool :=
@@ -354,46 +198,15 @@ Section Shapes.
       else string_path_checked vars loopvars l || string_path_checked vars loopvars r
     | _ => false
     end.
-
-  Fixpoint has_lenvar_defs (l : list (name * vtype)) : bool :=
-    match l with
-    | [] => false
-    | (_, TArray _ (LenVar _)) :: _ => true
-    | _ :: r => has_lenvar_defs r
-    end.
 End Shapes.
 
 Definition tasks_exist (f : program -> task -> bool) (p : program) : bool :=
   existsb (f p) (p_tasks p).
 
-Definition sh_parloop_call (p : program) : bool :=
-  tasks_exist (fun p t => existsb (stmt_parloop_call_bad p (vars_of_task t) []) (t_body t)) p.
-Definition sh_bad_literal (p : program) : bool :=
-  tasks_exist (fun p t => existsb (stmt_exists (fun _ _ => false) (param_bad_literal p) []) (t_body t)) p.
 Definition sh_bad_guard (p : program) : bool :=
-  tasks_exist (fun p t => existsb (stmt_exists (guard_bad p (vars_of_task t)) (fun _ => false) []) (t_body t)) p.
+  tasks_exist (fun p t => existsb (stmt_exists (guard_bad p (vars_of_task t)) []) (t_body t)) p.
 Definition sh_string_eq (p : program) : bool :=
-  tasks_exist (fun p t => existsb (stmt_exists (string_path_checked p (vars_of_task t)) (fun _ => false) [])
-                                  (t_body t)) p.
-Fixpoint stmt_decls_raw (s : stmt) : list (name * vtype) :=
-  match s with
-  | SService _ _ outs => outs
-  | SCall c => c_outs c
-  | SParallel cs => flat_map c_outs cs
-  | SWhile _ body => flat_map stmt_decls_raw body
-  | SCount _ _ _ body => flat_map stmt_decls_raw body
-  | SCond _ p f => flat_map stmt_decls_raw p ++ flat_map stmt_decls_raw f
-  end.
+  tasks_exist (fun p t => existsb (stmt_exists (string_path_checked p (vars_of_task t)) []) (t_body t)) p.
 
-(* C19: an array length given by a name is reported without a position (line 0) *)
-Definition sh_lenvar (p : program) : bool :=
-  existsb (fun s => has_lenvar_defs (s_attrs s)) (p_structs p)
-  || existsb (fun t => has_lenvar_defs (t_ins t) || has_lenvar_defs (flat_map stmt_decls_raw (t_body t)))
-             (p_tasks p).
-
-(* the guard of C11_wf_accepted_partial: no crash shape in guards and path parameters (D11a,
-   D11c), no string attribute in a position where only numbers and booleans are accepted and
-   no parenthesised string operand (D20) *)
-Definition c11_guard (p : program) : bool :=
-  prog_all (fun E T e => expr_safe E T e) (fun E T x => param_access_safe E T x) p
-  && negb (sh_string_eq p).
+(* the guard of C11_wf_accepted_partial: none of the two false-rejection shapes *)
+Definition c11_guard (p : program) : bool := g_array_elements p && negb (sh_string_eq p).
